@@ -3,10 +3,12 @@ import random as _r
 
 from pv import common, gen, detsched
 
-ALGOS = ["dpop", "syncbb", "mgm", "mgm2", "dsa", "adsa", "dsatuto", "dba", "gdba", "maxsum", "amaxsum"]
+ALGOS = ["dpop", "syncbb", "mgm", "mgm2", "dsa", "adsa", "dsatuto", "dba", "gdba", "maxsum", "amaxsum", "mixeddsa", "ncbb"]
 
-RULE = ("all eleven shipped algorithms (dpop, syncbb, mgm, mgm2, dsa, adsa [periodic ticks driven by the pool], "
-        "dsatuto, dba, gdba, maxsum, amaxsum with default noise/damping) on seeded small DCOPs with int, str and "
+RULE = ("all thirteen shipped algorithm modules (dpop, syncbb, mgm, mgm2, dsa, adsa [periodic ticks driven by the pool], "
+        "dsatuto, dba, gdba, maxsum, amaxsum with default noise/damping, mixeddsa with hard and soft constraints, ncbb "
+        "[observed until its own on_new_cycle raises on this tree]; maxsum_dynamic is a class library without "
+        "build_computation, not an algorithm module) on seeded small DCOPs with int, str and "
         "float domains, initial values set/unset, random parameters, random FIFO schedules with biases; monitor = "
         "class-level wrapper on VariableComputation.value_selection (the funnel) + current_value of every variable "
         "computation after every scheduler step; non-trivial = >= 2 variables and >= 3 monitored value_selection "
@@ -26,18 +28,20 @@ def in_domain(val, domain):
 
 
 def make_case(rng, algo):
-    binary = algo in ("syncbb",)
+    binary = algo in ("syncbb", "ncbb")
     hard = algo in ("dba",)
     pal = ("ties", "distinct", "float") if not hard else ("hard",)
-    objective = "min" if algo in ("dba", "dsatuto", "gdba") and rng.random() < 2 else None
+    if algo == "mixeddsa":
+        pal = ("ties", "distinct", "hard")
+    objective = "min" if algo in ("dba", "dsatuto", "gdba", "ncbb") and rng.random() < 2 else None
     if algo == "gdba":
         objective = rng.choice(["min", "max"])
     mixed = rng.random() < 0.3
     if mixed and not hard:
         pal = ("ties", "bin")  # many ties: tie-breaking between values of different types
     case = gen.gen_case(rng, min_vars=1, max_vars=5, max_dom=4, palettes=pal, objective=objective,
-                        binary_only=binary, var_costs=algo not in ("syncbb", "dba", "gdba"), max_space=600, initial=True,
-                        unary=algo not in ("syncbb",))
+                        binary_only=binary, var_costs=algo not in ("syncbb", "dba", "gdba", "ncbb"), max_space=600, initial=True,
+                        unary=algo not in ("syncbb", "ncbb"))
     # domains mixing value types (e.g. 'off', 1, 2) for some variables: ties between values of different types
     if mixed:
         for v in case["variables"]:
@@ -113,6 +117,9 @@ def make_params(rng, algo):
             p["damping"] = rng.choice([0.0, 0.5, 0.9])
             p["noise"] = rng.choice([0.0, 0.01, 0.2])
         return p
+    if algo == "mixeddsa":
+        return {"stop_cycle": rng.choice([0, 6]), "variant": rng.choice(["A", "B", "C"]),
+                "proba_hard": rng.choice([0.3, 0.7, 1.0]), "proba_soft": rng.choice([0.3, 0.5, 1.0])}
     if algo == "dba":
         return {"max_distance": rng.choice([3, 10, 50])}
     return {}
